@@ -1421,6 +1421,13 @@ func runCase(line string) output {
 			}
 		}
 		sc.find("blocks:"+lp, "%s was let go at an operation that cannot block in the tracked state (eventQ %d/%d keychan %d/%d quit=%v stopQ-closed=%v wg=%d) but did not reach its next schedule point within 25 s; goroutines inside tcell:\n%s", lg, c.eq, c.eqCap, c.kc, c.kcCap, c.quit, c.stop, c.wg, strings.Join(keep, "\n\n"))
+		sc.fmu.Lock()
+		finiCalled := sc.tags["fini"]
+		sc.fmu.Unlock()
+		if strings.HasPrefix(lp, "ce-") && finiCalled {
+			// the forwarding goroutine of ChannelEvents is parked for good although Fini has been called: its channel is never closed
+			sc.find("channel-not-closed-after-fini", "Fini was called (eventQ %d/%d, quit=%v in the tracked state) but the ChannelEvents goroutine stays parked at %s: the channel it was given is never closed", c.eq, c.eqCap, c.quit, lp)
+		}
 		c.release()
 	}
 	_ = dirPanic
